@@ -2402,6 +2402,14 @@ def builtin(it, name, args, kw, n):
             it.setattr(o, k.v, v, n)
             return K(None)
         raise Fail('setattr with unknown name')
+    if name == 'vars' and len(args) == 1 and isinstance(args[0], Inst) and args[0].native is None:
+        # the instance dictionary, in the order the attributes were first assigned (a snapshot: writes through it are not followed)
+        d = DictV()
+        for k_, v_ in args[0].attrs.items():
+            d.d[k_] = v_
+            d.keyobj[k_] = K(k_)
+        d.frozen_view = True
+        return d
     if name == 'getattr':
         o, k = args[:2]
         if isinstance(k, K):
